@@ -336,7 +336,13 @@ func propC15(c c15Case) (ev.Outcome, error) {
 		for _, q := range pu.Qualifiers {
 			escaping = escaping || needsEscaping(q.Value)
 		}
-		s := pu.String()
+		// the exported purl as packageurl-go prints it from the generated fields (independent
+		// of the library's own PackageURL.String)
+		ref := packageurl.PackageURL{Type: gp.Purl.Type, Namespace: gp.Purl.Namespace, Name: gp.Purl.Name, Version: gp.Purl.Version, Subpath: gp.Purl.Subpath}
+		for _, q := range gp.Purl.Qualifiers {
+			ref.Qualifiers = append(ref.Qualifiers, packageurl.Qualifier{Key: q.Key, Value: q.Value})
+		}
+		s := ref.ToString()
 		n, err := normPurl(s)
 		if err != nil {
 			return ev.Outcome{}, fmt.Errorf("exported purl %q (from %+v) is not parsable by packageurl-go: %v", s, *gp.Purl, err)
@@ -506,5 +512,5 @@ func diffStrings(want, got []string) string {
 
 func TestC15(t *testing.T) {
 	col := ev.Get("C15")
-	ev.Check(t, col, ev.Scale(ev.IntEnv("VERIF_C15_QUICK", 2000), 2500), genC15(col), propC15)
+	ev.Check(t, col, ev.Scale(ev.IntEnv("VERIF_C15_QUICK", 1200), 8000), genC15(col), propC15)
 }
